@@ -225,6 +225,12 @@ def run_c06(tier):
     traces += t
     meta += m
     judge(ck, pid, traces, meta, "text")
+    # the repository's own tests re-run under the recorder: every anonymize_ip_addr call they make
+    import c_suite
+    st, sm = c_suite.line_traces(TEXT_CLAUSES)
+    c_suite.note(ck)
+    ck.notes["repository_test_suite_line_events"] = sum(len(t) - 1 for t in st)
+    judge(ck, pid, st, [{"cfg": m["suite_cfg"], "via": "repository-test-suite", "lines": m["texts"][1:], "head": 1} for m in sm], "repository-test-suite")
     ck.sample({"lines": [meta[0]["lines"][i] for i in range(0, min(40, len(meta[0]["lines"])), 8)]})
     ck.sample({"lines": meta[len(meta) // 2]["lines"][:5]})
     ck.rule = ("cases = distinct input lines enumerated by TLC (AddrGen: all strings <= N over the boundary alphabet; dotted candidates; "
